@@ -3,10 +3,11 @@
    h2_send / h3_send / h23_recv, get_dumpers, content) on what the harness recorded at the origin
    (wire capture) and compares the predicted content of every writer with what the real
    writers received. *)
-From ReqV Require Export Lib.Bytes Model.Dump Model.DumpReader Model.DumpStack.
+From ReqV Require Export Lib.Bytes Model.Dump Model.DumpReader Model.DumpStack Model.C13Lit.
 
 (* compact rendering of bulk data in case files: k copies of a pattern *)
 Definition brep (k : nat) (p : bytes) : bytes := concat (repeat p k).
+
 
 (* a body reader that replays the recorded Read results *)
 Definition script_reader : rfn (list (bytes * rstat)) :=
@@ -25,6 +26,8 @@ Inductive exch :=
      (wire : bytes)                    (* everything the origin received for this request *)
      (bufsize : nat)                   (* Transport.ReadBufferSize *)
      (stream : bytes)                  (* everything the origin sent *)
+     (pre : nat)                       (* interim header blocks the client reads BEFORE it writes the
+                                          request body (Expect: 100-continue) *)
      (blocks : nat)                    (* header blocks read: 1 + number of 1xx responses *)
      (reads : list (bytes * rstat))    (* what the caller got from resp.Body *)
 | X2 (fields : list field) (body : option (list bytes))
@@ -48,12 +51,17 @@ Definition id_frame (p : bytes) : bytes := p.
 (* (does the model reproduce the captured wire?, predicted log) *)
 Definition exch_log (ds : list dumper) (x : exch) : bool * log :=
   match x with
-  | X1 hb body chunked wire n stream blocks reads =>
+  | X1 hb body chunked wire n stream pre blocks reads =>
       let '(sr, l1) := h1_send ds app_w [] (mkH1Req [hb] body chunked false) in
-      let '(rest, l2) := recv_blocks ds n (Nat.pred blocks) stream in
+      (* program order with Expect: 100-continue: header writes, the interim blocks (the write loop
+         waits for the read loop), then the body phase; the header phase is h1_send without body *)
+      let lh := snd (h1_send ds app_w [] (mkH1Req [hb] None chunked false)) in
+      let '(rest0, lpre) := recv_blocks ds n pre stream in
+      let '(rest, l2) := recv_blocks ds n (Nat.pred blocks - pre) rest0 in
       (* the final block is followed by the body reads *)
       let '(rr, l3) := h1_recv ds n rest script_reader reads (map (fun _ => 0) reads) in
-      (bytes_eqb (sr_state sr) wire && negb (sr_failed sr), l1 ++ l2 ++ l3)
+      (bytes_eqb (sr_state sr) wire && negb (sr_failed sr),
+       lh ++ lpre ++ skipn (length lh) l1 ++ l2 ++ l3)
   | X2 fs body rfs reads =>
       let '(sr, l1) := h2_send ds no_enc id_frame [] app_w [] (mkH23Req fs body) in
       let '(_, l2) := h23_recv ds rfs script_reader reads (map (fun _ => 0) reads) in
